@@ -3,7 +3,7 @@ CONSTANTS
   MKind = "vec"
   MEty = "u8"
   Prefixes <- PrefNew
-  OpNames = {"push", "pop", "clear", "clone", "insert", "remove", "set", "swap", "resize", "get"}
+  OpNames = {"push", "pop", "clear", "clone", "insert", "remove", "set", "swap", "resize", "get", "iter"}
   MaxOps = 40
   NumSel <- NumSel_none
 SPECIFICATION SimSpec
